@@ -236,3 +236,45 @@ func VerifC13_RemoveAfter(h *zz.H) {
 	h.Assert(!w.connected, "C13: no session is left open by Remove")
 	h.Quiesce()
 }
+
+// VerifC13_ReAdd: while Remove(t) is in progress another goroutine adds the same name again
+// (a configuration reload racing a removal). The duplicate is refused for as long as the old
+// target is managed; if the add is accepted the old session has been wound up: its stream ended
+// and was Reset before the new incarnation opens a stream, and callbacks of the two incarnations
+// never interleave inside a session.
+func VerifC13_ReAdd(h *zz.H) {
+	w := &c13World{h: h, budget: h.Param("BUDGET", 2), sig: make(chan bool, 16)}
+	m := c13Manager(h, w, 0)
+	tgt := &tpb.Target{Addresses: []string{"addr"}}
+	h.Assert(m.Add("t", tgt, &gpb.SubscribeRequest{}) == nil, "C13: a new target is added")
+	k := h.Range("after_events", 0, h.Param("K", 2))
+	for i := 0; i < k; i++ {
+		h.Await(w.sig)
+	}
+	readd := make(chan error, 1)
+	go func() { readd <- m.Add("t", tgt, &gpb.SubscribeRequest{}) }()
+	err := m.Remove("t")
+	h.Assert(err == nil, "C13: a managed target is removed")
+	if e := <-readd; e == nil {
+		h.Cover("re-add accepted after the removal")
+		// the name is managed again: remove the new incarnation as well
+		h.Assert(m.Remove("t") == nil, "C13: the re-added target is removed")
+	} else {
+		h.Cover("re-add refused as a duplicate")
+		h.Assert(m.Remove("t") != nil, "C13: removing twice is refused")
+	}
+	w.removed = true
+	for _, s := range w.streams {
+		if s.ended {
+			h.Assert(s.resets == 1, "C13: every ended stream was followed by exactly one Reset before Remove returned")
+		}
+		if s.recvd >= 1 {
+			h.Assert(s.connects == 1, "C13: Connect is reported after the first message of a stream")
+		}
+		if s.connects == 1 {
+			h.Assert(s.resets == 1, "C13: every session that reported Connect is ended by exactly one Reset")
+		}
+	}
+	h.Assert(!w.connected, "C13: no session is left open by Remove")
+	h.Quiesce()
+}
